@@ -298,6 +298,8 @@ func checkC17(c *Ctx, r *Report) {
 	c17Pure(c, r, resolveFns)
 	c17Total(c, r, resolveFns)
 	c17DeprReason(c, r, resolveFns)
+	r.rule("C17.ADDED", "in the loader's insertion loop every completed iteration added the definition, or is the reviewed re-declared-scalar exemption")
+	c17Added(c, r, "C17.ADDED")
 	importRules(c, r, "C16", "C17.EXTREFS", "the references an extension brings along are resolved before it is merged (C16.EXTREFS): the implicit schema object is in no table, so a root operation type added by `extend schema` and resolved only by a later table-wide pass stays a placeholder and __schema.mutationType describes a *Ref", "C16.EXTREFS")
 	c17Depr(c, r)
 	c17Null(c, r)
@@ -809,4 +811,107 @@ func c17DeprReason(c *Ctx, r *Report, resolveFns []*ssa.Function) {
 		}
 	}
 	r.floor("C17.DEPRREASON", "lookups of the reason argument", n, 1)
+}
+
+// c17Added: "__schema describes exactly the accepted schema": a definition handed to the loader is in the
+// tables afterwards or the load is refused. In the loader's insertion loop every path through an iteration
+// calls the table's add, returns (an error), or is the reviewed exemption for a re-declared scalar
+// (guarded by a comparison of the definition's Rank() with a constant). A definition skipped for any other
+// reason (a re-declared built-in directive) is accepted on paper and absent from what introspection reports.
+func c17Added(c *Ctx, r *Report, rule string) {
+	fn := c.fn("(*Root).addTypes")
+	if fn == nil {
+		r.undecided(rule, "anchor (*Root).addTypes", token.NoPos, "not found")
+		return
+	}
+	r.fnSeen(fnName(fn))
+	n := 0
+	for li, l := range loopsOf(fn) {
+		var adds []*ssa.BasicBlock
+		for b := range l.body {
+			for _, in := range b.Instrs {
+				if ci, ok := in.(ssa.CallInstruction); ok {
+					if cal := ci.Common().StaticCallee(); cal != nil && cal.Name() == "add" && recvName(cal) == "typeList" {
+						adds = append(adds, b)
+					}
+				}
+			}
+		}
+		if len(adds) == 0 {
+			continue
+		}
+		for _, lt := range l.latches {
+			n++
+			covered := false
+			for _, a := range adds {
+				if a == lt || a.Dominates(lt) {
+					covered = true
+				}
+			}
+			why := "the definition was added"
+			if !covered {
+				// a latch reached from several arms: every predecessor chain must be an add or the scalar exemption
+				covered = true
+				var check func(b *ssa.BasicBlock, seen map[*ssa.BasicBlock]bool) bool
+				check = func(b *ssa.BasicBlock, seen map[*ssa.BasicBlock]bool) bool {
+					if seen[b] {
+						return true
+					}
+					seen[b] = true
+					for _, a := range adds {
+						if a == b {
+							return true
+						}
+					}
+					if hasGuard(b, func(g guard) bool {
+						bo, ok := g.cond.(*ssa.BinOp)
+						if !ok || bo.Op != token.EQL || !g.val {
+							return false
+						}
+						for _, side := range []ssa.Value{bo.X, bo.Y} {
+							if call, ok := side.(*ssa.Call); ok && call.Call.IsInvoke() && call.Call.Method.Name() == "Rank" {
+								return true
+							}
+						}
+						return false
+					}) {
+						return true
+					}
+					if b == l.head {
+						return false
+					}
+					for _, p := range b.Preds {
+						if l.body[p] && !check(p, seen) {
+							return false
+						}
+					}
+					return len(b.Preds) > 0
+				}
+				covered = check(lt, map[*ssa.BasicBlock]bool{})
+				// the exemption may be the condition of the back edge itself (`if rank == scalar { continue }`)
+				if !covered {
+					for _, g := range edgeGuards(lt, l.head) {
+						g = normGuard(g)
+						if bo, ok := g.cond.(*ssa.BinOp); ok && bo.Op == token.EQL && g.val {
+							for _, side := range []ssa.Value{bo.X, bo.Y} {
+								if call, ok := side.(*ssa.Call); ok && call.Call.IsInvoke() && call.Call.Method.Name() == "Rank" {
+									covered = true
+								}
+							}
+						}
+					}
+				}
+				why = "every way round is an insertion or the re-declared-scalar exemption"
+			}
+			pos := token.NoPos
+			for _, in := range lt.Instrs {
+				if in.Pos().IsValid() {
+					pos = in.Pos()
+				}
+			}
+			r.check(rule, fmt.Sprintf("%s: loop %d back edge %d is taken only after the definition was added (or for a re-declared scalar)", fnName(fn), li+1, n), firstPos(pos, fn.Pos()), covered,
+				"an iteration can complete without inserting the definition and without an error: the load is accepted, the definition is dropped, and introspection describes the built-in (or earlier) one instead of the accepted text ("+why+")")
+		}
+	}
+	r.floor(rule, "back edges of the loader's insertion loop", n, 1)
 }
